@@ -1084,9 +1084,29 @@ static void update_d_scaleinf (
 		if (prule == QS_PRICE_PDANTZIG)
 			EGLPNUM_TYPENAME_EGlpNumCopy (p->d_scaleinf[j], inf);
 		else if (prule == QS_PRICE_PDEVEX)
-			EGLPNUM_TYPENAME_EGlpNumCopySqrOver (p->d_scaleinf[j], inf, p->pdinfo.norms[j]);
+		{
+			/* a reference norm can degenerate to zero in exact arithmetic when it was
+			 * carried over from an earlier basis; price such an element unscaled */
+			if (EGLPNUM_TYPENAME_EGlpNumIsNeqqZero (p->pdinfo.norms[j]))
+				EGLPNUM_TYPENAME_EGlpNumCopySqrOver (p->d_scaleinf[j], inf, p->pdinfo.norms[j]);
+			else
+			{
+				EGLPNUM_TYPENAME_EGlpNumCopy (p->d_scaleinf[j], inf);
+				EGLPNUM_TYPENAME_EGlpNumMultTo (p->d_scaleinf[j], inf);
+			}
+		}
 		else if (prule == QS_PRICE_PSTEEP)
-			EGLPNUM_TYPENAME_EGlpNumCopySqrOver (p->d_scaleinf[j], inf, p->psinfo.norms[j]);
+		{
+			/* a reference norm can degenerate to zero in exact arithmetic when it was
+			 * carried over from an earlier basis; price such an element unscaled */
+			if (EGLPNUM_TYPENAME_EGlpNumIsNeqqZero (p->psinfo.norms[j]))
+				EGLPNUM_TYPENAME_EGlpNumCopySqrOver (p->d_scaleinf[j], inf, p->psinfo.norms[j]);
+			else
+			{
+				EGLPNUM_TYPENAME_EGlpNumCopy (p->d_scaleinf[j], inf);
+				EGLPNUM_TYPENAME_EGlpNumMultTo (p->d_scaleinf[j], inf);
+			}
+		}
 
 		if (h->hexist != 0)
 		{
@@ -1278,9 +1298,29 @@ static void update_p_scaleinf (
 		if (prule == QS_PRICE_DDANTZIG)
 			EGLPNUM_TYPENAME_EGlpNumCopy (p->p_scaleinf[i], inf);
 		else if (prule == QS_PRICE_DSTEEP)
-			EGLPNUM_TYPENAME_EGlpNumCopySqrOver (p->p_scaleinf[i], inf, p->dsinfo.norms[i]);
+		{
+			/* a reference norm can degenerate to zero in exact arithmetic when it was
+			 * carried over from an earlier basis; price such an element unscaled */
+			if (EGLPNUM_TYPENAME_EGlpNumIsNeqqZero (p->dsinfo.norms[i]))
+				EGLPNUM_TYPENAME_EGlpNumCopySqrOver (p->p_scaleinf[i], inf, p->dsinfo.norms[i]);
+			else
+			{
+				EGLPNUM_TYPENAME_EGlpNumCopy (p->p_scaleinf[i], inf);
+				EGLPNUM_TYPENAME_EGlpNumMultTo (p->p_scaleinf[i], inf);
+			}
+		}
 		else if (prule == QS_PRICE_DDEVEX)
-			EGLPNUM_TYPENAME_EGlpNumCopySqrOver (p->p_scaleinf[i], inf, p->ddinfo.norms[i]);
+		{
+			/* a reference norm can degenerate to zero in exact arithmetic when it was
+			 * carried over from an earlier basis; price such an element unscaled */
+			if (EGLPNUM_TYPENAME_EGlpNumIsNeqqZero (p->ddinfo.norms[i]))
+				EGLPNUM_TYPENAME_EGlpNumCopySqrOver (p->p_scaleinf[i], inf, p->ddinfo.norms[i]);
+			else
+			{
+				EGLPNUM_TYPENAME_EGlpNumCopy (p->p_scaleinf[i], inf);
+				EGLPNUM_TYPENAME_EGlpNumMultTo (p->p_scaleinf[i], inf);
+			}
+		}
 
 		if (h->hexist != 0)
 		{
